@@ -161,7 +161,7 @@ pub fn configs(ctx: &Ctx) -> Vec<DistSpec> {
     }
     // integer extremes (all of u64 is in the quantifier of C03/C05)
     for n in [1u64 << 63, u64::MAX - 1, u64::MAX] {
-        for p in [0.5, 0.3, 0.999, 1e-18, 1e-19, 0.5000000000000001] {
+        for p in [0.5, 0.3, 0.999, 1e-18, 1e-19, 0.5000000000000001, 9.5e-18, 3e-18, 1.5e-17] {
             v.push(DistSpec::i(Family::Binomial, &[n], &[p]));
         }
     }
